@@ -31,6 +31,7 @@ const shimRoot = "github.com/sanonone/kektordb/internal/verif/shim/"
 type rule struct {
 	dirs    []string          // package directories relative to the repo root
 	imports map[string]string // import path -> replacement path (local name = old base name)
+	selects bool              // rewrite select statements
 }
 
 func rulesFor(mode string) (rule, bool) {
@@ -40,7 +41,10 @@ func rulesFor(mode string) (rule, bool) {
 	case "os":
 		return rule{dirs: []string{"pkg/persistence", "pkg/engine", "pkg/core", "pkg/storage/mmap", "pkg/core/hnsw"}, imports: map[string]string{"os": shimRoot + "vos"}}, true
 	case "sync":
-		return rule{dirs: []string{"pkg/persistence", "pkg/engine"}, imports: map[string]string{"sync": shimRoot + "vsync"}}, true
+		return rule{dirs: []string{"pkg/persistence", "pkg/engine", "pkg/core", "pkg/core/hnsw", "pkg/core/distance", "pkg/storage/mmap"}, imports: map[string]string{"sync": shimRoot + "vsync"}}, true
+	case "select":
+		// select statements become explorer-controlled (see rewriteSelects)
+		return rule{dirs: []string{"pkg/persistence", "pkg/engine"}, selects: true}, true
 	}
 	return rule{}, false
 }
@@ -56,6 +60,7 @@ func main() {
 	}
 	// file -> accumulated import replacements
 	perFile := map[string]map[string]string{}
+	selFiles := map[string]bool{}
 	for _, m := range strings.Split(*mode, ",") {
 		m = strings.TrimSpace(m)
 		if m == "" {
@@ -83,6 +88,9 @@ func main() {
 				}
 				for k, v := range r.imports {
 					perFile[p][k] = v
+				}
+				if r.selects {
+					selFiles[p] = true
 				}
 			}
 		}
@@ -115,6 +123,17 @@ func main() {
 				changed = true
 			}
 		}
+		if selFiles[path] {
+			rel, _ := filepath.Rel(*repo, path)
+			n, err := rewriteSelects(fset, f, rel)
+			if err != nil {
+				fail(path, err)
+			}
+			if n > 0 {
+				changed = true
+				addImport(f, shimRoot+"vsched", "vsched")
+			}
+		}
 		if !changed {
 			continue
 		}
@@ -136,6 +155,159 @@ func main() {
 		fail("overlay.json", err)
 	}
 	fmt.Printf("instrument: %d files rewritten (modes %s)\n", n, *mode)
+}
+
+// addImport adds an import declaration (no-op if present).
+func addImport(f *ast.File, path, name string) {
+	for _, is := range f.Imports {
+		if p, _ := strconv.Unquote(is.Path.Value); p == path {
+			return
+		}
+	}
+	spec := &ast.ImportSpec{Name: ast.NewIdent(name), Path: &ast.BasicLit{Kind: token.STRING, Value: strconv.Quote(path)}}
+	for _, d := range f.Decls {
+		if g, ok := d.(*ast.GenDecl); ok && g.Tok == token.IMPORT {
+			g.Specs = append(g.Specs, spec)
+			if !g.Lparen.IsValid() {
+				g.Lparen = g.Pos()
+				g.Rparen = g.End()
+			}
+			f.Imports = append(f.Imports, spec)
+			return
+		}
+	}
+	g := &ast.GenDecl{Tok: token.IMPORT, Specs: []ast.Spec{spec}}
+	f.Decls = append([]ast.Decl{g}, f.Decls...)
+	f.Imports = append(f.Imports, spec)
+}
+
+// rewriteSelects turns every
+//
+//	select { case v := <-A: ...; case B <- x: ...; default: ... }
+//
+// into
+//
+//	{ __c0 := A; __c1 := B
+//	  __p := vsched.Pref("file:line", hasDefault, vsched.R(__c0), vsched.S(__c1))
+//	  select { case v := <-vsched.Gate(__p, 0, __c0): ...; case vsched.GateS(__p, 1, __c1) <- x: ...; default: ... } }
+//
+// The channel expressions are evaluated once, in source order, as the language does on entering
+// a select; Pref is a scheduling point that returns which clause may fire (the others receive a
+// nil channel, which never fires); a negative preference leaves the select untouched. A select
+// with a default keeps its default clause, guarded so that it fires only when chosen.
+func rewriteSelects(fset *token.FileSet, f *ast.File, rel string) (int, error) {
+	n := 0
+	var firstErr error
+	var rewriteList func(list []ast.Stmt) []ast.Stmt
+	var visit func(node ast.Node)
+	rewriteOne := func(sel *ast.SelectStmt) ast.Stmt {
+		pos := fset.Position(sel.Pos())
+		site := fmt.Sprintf("%s:%d", filepath.Base(rel), pos.Line)
+		id := n
+		n++
+		var pre []ast.Stmt
+		var descs []ast.Expr
+		hasDef := false
+		ci := 0
+		pname := fmt.Sprintf("__vp%d", id)
+		after := func() ast.Stmt {
+			return &ast.ExprStmt{X: &ast.CallExpr{Fun: &ast.SelectorExpr{X: ast.NewIdent("vsched"), Sel: ast.NewIdent("After")},
+				Args: []ast.Expr{&ast.BasicLit{Kind: token.STRING, Value: strconv.Quote(site + "+")}}}}
+		}
+		for _, c := range sel.Body.List {
+			cc := c.(*ast.CommClause)
+			cc.Body = append([]ast.Stmt{after()}, cc.Body...)
+			if cc.Comm == nil {
+				hasDef = true
+				continue
+			}
+			cname := fmt.Sprintf("__vc%d_%d", id, ci)
+			var chExpr *ast.Expr
+			send := false
+			switch st := cc.Comm.(type) {
+			case *ast.SendStmt:
+				chExpr = &st.Chan
+				send = true
+			case *ast.ExprStmt:
+				if u, ok := st.X.(*ast.UnaryExpr); ok && u.Op == token.ARROW {
+					chExpr = &u.X
+				}
+			case *ast.AssignStmt:
+				if len(st.Rhs) == 1 {
+					if u, ok := st.Rhs[0].(*ast.UnaryExpr); ok && u.Op == token.ARROW {
+						chExpr = &u.X
+					}
+				}
+			}
+			if chExpr == nil {
+				firstErr = fmt.Errorf("%s: unsupported communication clause", site)
+				return sel
+			}
+			pre = append(pre, &ast.AssignStmt{Lhs: []ast.Expr{ast.NewIdent(cname)}, Tok: token.DEFINE, Rhs: []ast.Expr{*chExpr}})
+			fn := "R"
+			gate := "Gate"
+			if send {
+				fn, gate = "S", "GateS"
+			}
+			descs = append(descs, &ast.CallExpr{Fun: &ast.SelectorExpr{X: ast.NewIdent("vsched"), Sel: ast.NewIdent(fn)}, Args: []ast.Expr{ast.NewIdent(cname)}})
+			*chExpr = &ast.CallExpr{Fun: &ast.SelectorExpr{X: ast.NewIdent("vsched"), Sel: ast.NewIdent(gate)},
+				Args: []ast.Expr{ast.NewIdent(pname), &ast.BasicLit{Kind: token.INT, Value: strconv.Itoa(ci)}, ast.NewIdent(cname)}}
+			ci++
+		}
+		defLit := "false"
+		if hasDef {
+			defLit = "true"
+		}
+		args := append([]ast.Expr{&ast.BasicLit{Kind: token.STRING, Value: strconv.Quote(site)}, ast.NewIdent(defLit)}, descs...)
+		pre = append(pre, &ast.AssignStmt{Lhs: []ast.Expr{ast.NewIdent(pname)}, Tok: token.DEFINE,
+			Rhs: []ast.Expr{&ast.CallExpr{Fun: &ast.SelectorExpr{X: ast.NewIdent("vsched"), Sel: ast.NewIdent("Pref")}, Args: args}}})
+		// keep the variable used even when the select has no channel clause
+		pre = append(pre, &ast.AssignStmt{Lhs: []ast.Expr{ast.NewIdent("_")}, Tok: token.ASSIGN, Rhs: []ast.Expr{ast.NewIdent(pname)}})
+		return &ast.BlockStmt{List: append(pre, sel)}
+	}
+	rewriteList = func(list []ast.Stmt) []ast.Stmt {
+		for i, st := range list {
+			switch s := st.(type) {
+			case *ast.SelectStmt:
+				visit(s.Body)
+				list[i] = rewriteOne(s)
+			case *ast.LabeledStmt:
+				if _, ok := s.Stmt.(*ast.SelectStmt); ok {
+					firstErr = fmt.Errorf("%s: labeled select is not supported", fset.Position(s.Pos()))
+				}
+				visit(s)
+			default:
+				visit(st)
+			}
+		}
+		return list
+	}
+	visit = func(node ast.Node) {
+		ast.Inspect(node, func(x ast.Node) bool {
+			switch b := x.(type) {
+			case *ast.BlockStmt:
+				if b == nil {
+					return false
+				}
+				b.List = rewriteList(b.List)
+				return false
+			case *ast.CaseClause:
+				b.Body = rewriteList(b.Body)
+				for _, e := range b.List {
+					visit(e)
+				}
+				return false
+			case *ast.CommClause:
+				b.Body = rewriteList(b.Body)
+				return false
+			}
+			return true
+		})
+	}
+	for _, d := range f.Decls {
+		visit(d)
+	}
+	return n, firstErr
 }
 
 func fail(path string, err error) {
